@@ -408,6 +408,14 @@ func (c *MemConn) HoldWriteReturn(k int) (release func()) {
 	return func() { once.Do(func() { close(ch) }) }
 }
 
+// HoldNextWriteReturn is HoldWriteReturn for the next Write this end performs.
+func (c *MemConn) HoldNextWriteReturn() (release func()) {
+	c.wr.mu.Lock()
+	k := c.wr.writes + 1
+	c.wr.mu.Unlock()
+	return c.HoldWriteReturn(k)
+}
+
 // CutAfterWritten breaks the connection once this end has written n bytes in total.
 func (c *MemConn) CutAfterWritten(n int64) {
 	c.wr.mu.Lock()
